@@ -2,7 +2,14 @@
    recorded event, applies the corresponding model operation to the *implementation's previous
    snapshot* (one-step correspondence) and prints the model's post-state in the harness' format:
      M <kind-of-event> [value] <snapshot>
-   The arithmetic record is built from OCaml's float operations (IEEE double, same as the C++). *)
+   The arithmetic record is built from OCaml's float operations (IEEE double, same as the C++).
+   Sparse (long) runs carry the state before each recorded call in a line  P nsmo <snapshot>.
+   Every shrink event additionally gets a line
+     R 0                                                   the un-shrink branch of shrink() is not due in the pre-state
+     R 1 <active> <perm..> S <active> <perm..>             C08Reshrink.reshrink (as coded) and reshrink_stale (bounds not
+                                                           recomputed) applied to the pre-state: active-set size and permutation
+   Object-history runs (HIST): the mutator events setlin / setinit / scale / activate / flip / setshr are answered by
+   C08Mutators.mstep on the previous snapshot. *)
 open C08_model
 
 let rec nat_of_int n = if n <= 0 then O else S (nat_of_int (n - 1))
@@ -61,11 +68,16 @@ let () =
         print_endline l
       | "K" -> km := Array.init (!n * !n) (fun k -> fos t.(k + 1))
       | "S0" -> prev := Some (parse_snap !n t 1)
-      | "F" -> ()
+      | "F" -> prev := Some (parse_snap !n t 1)
+      | "P" -> prev := Some (parse_snap !n t 2)
       | "E" ->
         let nn = !n in
         let k0 p q = let a = int_of_nat p and b = int_of_nat q in if a < nn && b < nn then !km.(a * nn + b) else 0.0 in
-        let nargs = (match t.(1) with "smo" -> 2 | "shrink" -> 2 | "unshrink" -> 0 | "kkt" -> 1 | _ -> failwith "bad event") in
+        let nargs = (match t.(1) with "smo" -> 2 | "shrink" -> 2 | "unshrink" -> 0 | "kkt" -> 1
+                                      | "setlin" -> 2 | "setinit" -> nn | "scale" -> 4 | "activate" -> 1 | "flip" -> 2 | "setshr" -> 1
+                                      | _ -> failwith "bad event") in
+        let args = String.concat "" (List.init nargs (fun k -> " " ^ t.(2 + k))) in
+        let nat_n = nat_of_int nn in
         let post = parse_snap nn t (2 + nargs) in
         (match !prev with
          | None -> failwith "event before S0"
@@ -80,8 +92,27 @@ let () =
                 Printf.sprintf "M shrink %s %s" t.(2) (if !shr then "1" else "0"),
                 step fops (nat_of_int nn) k0 !kind !shr s (OShrink (fos t.(2)))
               | "unshrink" -> "M unshrink", step fops (nat_of_int nn) k0 !kind !shr s OUnshrink
+              | "setlin" -> "M setlin" ^ args, mstep fops nat_n k0 s (MSetLinear (nat_of_int (int_of_string t.(2)), fos t.(3)))
+              | "setinit" ->
+                let arg = Array.init nn (fun k -> fos t.(2 + k)) in
+                "M setinit" ^ args, mstep fops nat_n k0 s (MSetInitial (getf arg))
+              | "scale" -> "M scale" ^ args, mstep fops nat_n k0 s (MScale (fos t.(4), fos t.(5), fos t.(2), fos t.(3)))
+              | "activate" -> "M activate" ^ args, mstep fops nat_n k0 s (MActivate (nat_of_int (int_of_string t.(2))))
+              | "flip" -> "M flip" ^ args, mstep fops nat_n k0 s (MFlip (nat_of_int (int_of_string t.(2)), nat_of_int (int_of_string t.(3))))
+              | "setshr" ->
+                let b = t.(2) = "1" in
+                let s' = if b then s else step fops nat_n k0 !kind !shr s OUnshrink in
+                shr := b; "M setshr" ^ args, s'
               | _ -> Printf.sprintf "M kkt %s" (pf (check_kkt fops (nat_of_int nn) !kind s)), s) in
-           print_endline (hdr ^ print_st nn (fval fops (nat_of_int nn) s') s'));
+           print_endline (hdr ^ print_st nn (fval fops (nat_of_int nn) s') s');
+           if t.(1) = "shrink" then begin
+             if !shr && reshrink_due fops (fos t.(2)) s then begin
+               let idx = List.init nn nat_of_int in
+               let pa (x : float st) = Printf.sprintf " %d" (int_of_nat x.active) ^ String.concat "" (List.map (fun a -> Printf.sprintf " %d" (int_of_nat (x.perm a))) idx) in
+               let r1 = reshrink fops nat_n k0 !kind s and r2 = reshrink_stale fops nat_n k0 !kind s in
+               print_endline ("R 1" ^ pa r1 ^ " S" ^ pa r2)
+             end else print_endline "R 0"
+           end);
         prev := Some post
       | _ -> ()
     done
